@@ -154,7 +154,8 @@ PLANS = {
         rule="types 6, 8, 17: every payload length 0..max+4 bytes x 3 content patterns, header walks, random"),
     "C16": dict(
         mc=[mc("MC_Layouts", "MC_Layouts.cfg")],
-        families=[fam("radio", F.fam_radio), fam("radio-exhaustive", F.fam_radio_exhaustive, tier="thorough")],
+        families=[fam("radio", F.fam_radio, twin_merge=E.tag_twin_merge),
+                  fam("radio-exhaustive", F.fam_radio_exhaustive, tier="thorough", twin_merge=E.tag_twin_merge)],
         rule="7 types x selector x preceding bit x 4 sync x 8 time-outs x sub-message values; thorough: all 2^19 / 2^20 states"),
     "C19": dict(
         mc=[mc("MC_Nmea", "MC_Nmea.cfg", workers=6)],
@@ -216,6 +217,12 @@ PLANS = {
              "real binary fed generated streams (valid, fragments, noise, invalid UTF-8, CR, empty lines, 100 kB lines, byte soup), "
              "one event per input line judged by the trace specification"),
 }
+
+# the properties that govern which lines are accepted and what a group delivers also watch the command-line
+# tool: it is the one caller of the library inside the repository, and a change there (trimming, re-encoding,
+# resetting the parser) alters what "a line is accepted" means for its users
+for _pid in ("C02", "C05", "C06", "C08", "C09"):
+    PLANS[_pid]["custom"] = list(PLANS[_pid].get("custom", [])) + [dict(run=cli_run)]
 
 # every check also runs the common core on the std and the no-allocator build
 for _pid, _plan in PLANS.items():
